@@ -18,6 +18,7 @@ CHECKS = {
  "C09": ("exploration", "seeded search over frame conversations generated from the protocol grammar with 0-3 deviations (drop, duplicate, swap, id rewrites, wrong sizes, oversize chunks, bad/empty method names, continuation without envelope, bad revisions, empty frames, absurd windows and window updates, extra half-close/cancel), in both roles and both network roles, followed by a probe stream and hang-up; oracles: no panic, nothing blocked and nothing retained at final quiescence, buffered bytes per stream <= one window, and the outcome class (stream-level vs tunnel-level) predicted by running the documented stream-id rules over the frame list", "6 C09"),
  "C10": ("fault_enumeration", "for seeded baselines graceful shutdown (InitiateShutdown / GracefulStop in its own goroutine) is initiated at every frame boundary (thorough) or a stratified sample (quick) of a workload of in-flight RPCs, further RPCs are attempted afterwards, the run is driven to final quiescence and Stop is called; oracles: RPCs started after shutdown took effect are refused with Unavailable and never reach a handler, in-flight RPCs complete as planned, the tunnel stays up for them, GracefulStop/Stop return when they should", "6 C10"),
  "C11": ("exploration", "the configuration matrix {client, server} x {enabled, disabled, legacy revision-zero raw peer} x {forward, reverse} and a list of 20 settings variants (revision lists, windows, wrong ids, wrong / missing first frames) are finite and drawn uniformly, each many times, under sampled schedules; oracles: settings sent iff both ends advertise, flow control (revision one, window updates) in use iff both enabled, highest common revision chosen, an empty list means revision zero, legacy peers never see settings / window updates / revision one, all four shapes work in every workable cell, unworkable exchanges fail the tunnel with an error and RPCs fail without virtual time passing", "6 C11"),
+ "C12": ("exploration", "seeded search over histories of reverse tunnels opened (colliding / nil affinity keys) and closed (context cancel, server-side Close, carrier failure, Stop) interleaved at lock granularity with client goroutines routing RPCs and calling Ready / WaitForReady / AllReverseTunnels; at every quiescent point the registry is compared with the ground truth and round-robin is tested on every pool; routing, WaitForReady results and callbacks are checked against tunnel lifetimes; each pool's history is checked with porcupine for linearizability against a sequential set model", "6 C12"),
  "C13": ("exploration", "every frame of every explored run (message-flow, teardown, metadata families) is fed, at emission and at delivery, to a protocol automaton written from tunnel.proto (appendix A)", "6 C13, appendix A"),
  "C16": ("exploration", "seeded search over shape cases: raw client vs real server and raw server vs real client with 0-4 messages on the non-streaming side, arbitrary chunking, messages after the half-close/close, both network roles, negotiated and legacy; and applications that send twice on a non-streaming side (wire monitor: one envelope)", "6 C16"),
  "C14": ("exploration", "every run ends with a drain to final quiescence and a full shutdown; stream-table sizes are probed through the verif accessors and every goroutine the library started is accounted for by spawn site", "6 C14"),
